@@ -11,7 +11,7 @@ COMMON_ASSUMPTIONS = [
 PLANS = {
     'C04': {
         'quick': {'rounds': 32, 'wall_cap_s': 150},
-        'thorough': {'rounds': 192, 'wall_cap_s': 1500},
+        'thorough': {'rounds': 288, 'wall_cap_s': 2400},
         'rule': ('cases = seeded random complete DFAs (1-7 core states + 0-3 unreachable, |Sigma| 0-3, accepting ratio drawn from '
                  '{0,.1,.5,.9,1}), DFAs with deliberately split (equivalent) states, and a fixed corner corpus; each renamed '
                  'injectively and list-shuffled (insertion order) per case, run under the round\'s PYTHONHASHSEED in a pristine fork; '
@@ -27,7 +27,7 @@ PLANS = {
     },
     'C20': {
         'quick': {'rounds': 32, 'wall_cap_s': 150},
-        'thorough': {'rounds': 192, 'wall_cap_s': 1500},
+        'thorough': {'rounds': 384, 'wall_cap_s': 2400},
         'rule': ('cases = pairs of complete DFAs over a common alphabet (1-6 states each): renamed copies (with/without extra unreachable '
                  'states), one side minimised, one state split, independent DFAs, single-transition and single-accepting-bit mutations, the '
                  'same object twice; both functions x both argument orders per case (evaluations counts calls), each under a 300k-tick budget; '
@@ -44,7 +44,7 @@ PLANS = {
     },
     'C15': {
         'quick': {'rounds': 32, 'wall_cap_s': 150},
-        'thorough': {'rounds': 96, 'wall_cap_s': 1500},
+        'thorough': {'rounds': 192, 'wall_cap_s': 2400},
         'rule': ('cases = (object, word list): DFAs (1-5 states), NFAs (1-6 states, epsilon density up to .6, epsilon self-loops/cycles, '
                  'dict and defaultdict transition maps), PDAs (1-4 states, all four transition shapes, closure limit knob in {20,60,200,1000}) '
                  'and CNF grammars (1-5 variables); words = accepted words up to length 4-5 chosen with the reference (shortest + longest) plus '
@@ -61,7 +61,7 @@ PLANS = {
     },
     'C06': {
         'quick': {'rounds': 32, 'wall_cap_s': 150},
-        'thorough': {'rounds': 128, 'wall_cap_s': 1500},
+        'thorough': {'rounds': 192, 'wall_cap_s': 2400},
         'rule': ('cases = (a) regular-expression trees with 0-10 operator nodes over <= 3 single-letter symbols (leaf mix drawn per case, '
                  'corner corpus with 0/1 under star and in products) -> regexp_to_nfa; (b) complete DFAs with 1-5 states (+<=1 unreachable), |Sigma| 1-2, '
                  'and split-state DFAs -> dfa_to_regexp; also three-symbol DFAs with <= 4 states, binary alphabets {0,1} (the letters 0 and 1 are also the constants of the regexp syntax), earlier conversions of a twin / another DFA in the same interpreter (35%), in-place edit then reconversion (25%); states renamed and list-shuffled per case (names start/accept and set-like names in the pool), run under the round\'s '
@@ -78,7 +78,7 @@ PLANS = {
     },
     'C08': {
         'quick': {'rounds': 32, 'wall_cap_s': 150},
-        'thorough': {'rounds': 192, 'wall_cap_s': 1500},
+        'thorough': {'rounds': 384, 'wall_cap_s': 2400},
         'rule': ('cases = grammars with 1-6 variables (12%: padded to 23-30 variables incl. multi-letter names so that cfg_fresh_variable crosses its '
                  '26 boundary), 0-3 rules per variable of length 0-4 over <= 3 terminals; drawn features: epsilon rules, unit rules and unit cycles, '
                  'shared right-hand sides, start variable on a right-hand side, useless variables; variables renamed (A-Z permutation / multi-letter) and sets '
@@ -99,7 +99,7 @@ PLANS = {
     },
     'C09': {
         'quick': {'rounds': 32, 'wall_cap_s': 150},
-        'thorough': {'rounds': 96, 'wall_cap_s': 1500},
+        'thorough': {'rounds': 192, 'wall_cap_s': 2400},
         'rule': ('cases = sessions over one PDA (1-4 states, |Sigma| 1-2, |Gamma| 1-2, 1-8 transitions of the four shapes push/pop/replace/no-op, '
                  'epsilon moves incl. stack-growing and stack-neutral cycles) of 6-8 steps "set closure limit; pda_accepts_word(P, w)" with |w| <= 4; '
                  'limits drawn from {0,1,2,3,5,10,40,150,1000} and from {exact largest closure size -1, +0, +1} computed by the reference; two sessions per round use a PDA with a large finite closure (511-4095 configurations) and limits on both sides of it and of the default 1000 (up to 5000); one step in five is an in-place edit of the live PDA (transition added/removed, accepting bit flipped, an *_in_place normal form); states/symbols/epsilon '
@@ -118,7 +118,7 @@ PLANS = {
     },
     'C02': {
         'quick': {'rounds': 32, 'wall_cap_s': 150},
-        'thorough': {'rounds': 128, 'wall_cap_s': 1500},
+        'thorough': {'rounds': 256, 'wall_cap_s': 2400},
         'rule': ('cases = sessions of 3 steps over one object of one of the six kinds (DFA/NFA <= 5 states, PDA <= 4 states, TM <= 4 working states with partial delta, '
                  'CFG <= 4 variables with epsilon/unit/cyclic rules, regexp <= 8 operators over single letters); a step draws n in 0..5 (0 and 1 over-weighted) and, '
                  'for PDAs, sets the ambient closure limit (fixed list and exact-closure-size -1/0/+1/+5), for TMs passes max_steps in {0,1,2,5,20,1000}; regexp alphabets include the letters 0 and 1; 4% of the PDA sessions use a large finite closure with limits up to 5000; per step: '
@@ -136,7 +136,7 @@ PLANS = {
     },
     'C18': {
         'quick': {'rounds': 32, 'wall_cap_s': 150},
-        'thorough': {'rounds': 256, 'wall_cap_s': 1500},
+        'thorough': {'rounds': 512, 'wall_cap_s': 2400},
         'rule': ('cases = sessions (pristine fork each, so the step list is the whole history since interpreter start): 2-5 base NFAs (1-3 states, arbitrary names incl. '
                  'q0,q1,.. i.e. exactly the names the hidden generators hand out later; epsilon symbol drawn from {\'\', ε, _, e}; dict and defaultdict transition maps; partial relations; 30% with several delta keys holding the SAME set object) '
                  'followed by 3-9 constructions nfa_union / nfa_concatenation / nfa_repetition with the default or a private IdentifierGenerator, on bases and on results of earlier steps; '
@@ -154,7 +154,7 @@ PLANS = {
     },
     'C19': {
         'quick': {'rounds': 5, 'wall_cap_s': 240, 'replicas': 4, 'logging_replica': True},
-        'thorough': {'rounds': 10, 'wall_cap_s': 2400, 'replicas': 4, 'logging_replica': True},
+        'thorough': {'rounds': 16, 'wall_cap_s': 3000, 'replicas': 4, 'logging_replica': True},
         'selftest': {'rounds': 1, 'wall_cap_s': 200, 'replicas': 2, 'logging_replica': True},
         'rule': ('a bundle = one session spec (9-14 objects of all six kinds built from seeded specs over a 1-2 letter alphabet, then 36-60 calls drawn uniformly from a registry of ~90 pure operations: '
                  'acceptance tests, enumerators, minimisers, products, complement/reverse/prefix-free, conversions (nfa_to_dfa, dfa_to_regexp, regexp_to_nfa, cfg_to_chomsky and its phases, pda_to_cfg, PDA normal forms), '
